@@ -12,8 +12,7 @@ evaluation of the module in place of `jsValue` (and compares the two).
 False on the unchanged tree; one witness per excluded class, each the text the REAL compiler wrote for
 an accepted program (corpus/C09/witnesses.txt).  What is proved for all inputs: the JavaScript level
 (`C09_js_embedding`), mergeability from distinct response names (`C09_distinct_keys_merge`), declared =
-used variables when no variable is nested in an object (`C09_declared_eq_used_partial`), and their
-composition `C09_valid_partial`.
+used variables (`C09_declared_eq_used`), and the composition `C09_valid_partial`.
 -/
 import IsoVerif.Lemmas.OpsWitness
 import IsoVerif.Lemmas.OpsJs
@@ -42,17 +41,17 @@ theorem C09_witness_apostrophe : ¬ C09_holds_at Witness.schema Witness.f13File 
 theorem C09_statement_false : ¬ C09_statement := fun h =>
   C09_witness_apostrophe (h Witness.f13File (by simp))
 
-/-- F12: `user(filter: { id: $id })` — `$id` is used and not declared -/
-theorem C09_witness_undeclared_nested_variable : Witness.check Witness.f12Text = some false :=
-  Witness.f12_invalid
+/-- F12, repaired by af3b32d: `user(filter: { id: $id })` used to be printed without declaring `$id`;
+the operation printed now declares it -/
+theorem C09_fixed_undeclared_nested_variable :
+    Witness.check Witness.f12Text = some false ∧ Witness.check Witness.f12Repaired = some true :=
+  ⟨Witness.f12_invalid, Witness.f12_repaired_valid⟩
 
-/-- … and declaring it is all that is missing -/
-theorem C09_witness_undeclared_nested_variable_repaired : Witness.check Witness.f12Repaired = some true :=
-  Witness.f12_repaired_valid
-
-/-- F12b: the object argument is replaced by the variable inside it: `$uid: ID` at a `UserFilter` position -/
-theorem C09_witness_object_replaced_by_variable : Witness.check Witness.f12bText = some false :=
-  Witness.f12b_invalid
+/-- F12b, repaired by af3b32d: the object argument `{ id: $uid }` passed to a client field used to be
+replaced by `$uid` (an `ID` at a `UserFilter` position); now the object is kept -/
+theorem C09_fixed_object_replaced_by_variable :
+    Witness.check Witness.f12bText = some false ∧ Witness.check Witness.f12bRepaired = some true :=
+  ⟨Witness.f12b_invalid, Witness.f12b_repaired_valid⟩
 
 /-- F11: `user(n: -5)` — the alias `user____n___l_-5` is not a Name; the text does not parse -/
 theorem C09_witness_negative_int_alias : Witness.check Witness.f11NegText = none :=
@@ -93,21 +92,23 @@ theorem C09_distinct_keys_merge (s : VSchema) (fuel : Nat) (fields : List CField
   canMergeSet_of_distinct s fuel fields h
 
 /-- variables: the compiler declares the variables it collects from the merged map
-(`reachable_variables`); when no variable is nested inside an object or list argument these are
-exactly the variables the printed operation uses — every used variable is declared and every declared
+(`reachable_variables`, nested ones included since af3b32d); these are exactly the variables the
+printed operation uses, in the same order — every used variable is declared and every declared
 variable is used (client pointer entries, which are not printed, contribute none since 31b992f) -/
-theorem C09_declared_eq_used_partial (m : SelMap) (h : Vars.flatMap m = true) :
-    Vars.printedMap m = Vars.reachableMap m :=
-  Vars.printed_eq_reachable_of_flat m h
+theorem C09_declared_eq_used (m : SelMap) : Vars.printedMap m = Vars.reachableMap m :=
+  Vars.printed_eq_reachable m
 
-/-- without the side condition one half survives: every declared variable is used -/
-theorem C09_declared_subset_used (m : SelMap) : ∀ x ∈ Vars.reachableMap m, x ∈ Vars.printedMap m :=
-  Vars.reachable_subset_printed m
+/-- before af3b32d (`get_variables` only looked at top-level argument values) that held only when no
+variable was nested in an object or list … -/
+theorem C09_declared_eq_used_before_repair (m : SelMap) (h : Vars.flatMap m = true) :
+    Vars.printedMap m = Vars.reachableOldMap m :=
+  Vars.printed_eq_reachableOld_of_flat m h
 
-/-- F12 on the merged map: `{ i: $x }` is printed, `$x` is not collected -/
-theorem C09_witness_nested_variable_not_collected :
-    Vars.printedMap Vars.f12Map ≠ Vars.reachableMap Vars.f12Map :=
-  Vars.f12_printed_ne_reachable
+/-- … and F12 was the other case: `{ i: $x }` is printed, `$x` was not collected -/
+theorem C09_fixed_nested_variable_not_collected :
+    Vars.printedMap Vars.f12Map ≠ Vars.reachableOldMap Vars.f12Map ∧
+    Vars.printedMap Vars.f12Map = Vars.reachableMap Vars.f12Map :=
+  ⟨Vars.f12_printed_ne_reachableOld, Vars.printed_eq_reachable _⟩
 
 /-- composition: for a text inside the JavaScript envelope the property reduces to the GraphQL level —
 the parse and validation of the text with the continuations removed -/
